@@ -191,6 +191,7 @@ pub fn program_scenario(
         nontrivial: !input.is_empty(),
         unbounded: false,
         loop_body: false,
+        sometimes: vec![],
     }
 }
 
